@@ -165,6 +165,62 @@ def polar_rule(prog):
     return out
 
 
+def clamp_rule(rep, prog):
+    """the scale that is printed is the scale of the number: for an engineering exponent e the exponent denoted by the prefix letter plus the
+    exponent written as `e<n>` equals e -- with prefixes (letter of e if the table has it; beyond the table the nearest end letter and the
+    rest as extension) and without (extension only).  Decided by partial evaluation of exp_prefix / exp_extension (term evaluator, constants
+    folded; nothing executed) for every multiple of three from four steps below to four steps above each prefix table IN USE."""
+    from ..terms import Evaluator, Rec, Poly, Opq, _HK
+    from ..api import A
+    m = prog.mod(UT); cls = m.defs.get('ScientificFloat')
+    rep.rule('R18.clamp', 'prefix letter and exponent extension together denote the engineering exponent (inside, below and above the prefix table; with and without prefixes)')
+    if not isinstance(cls, ast.ClassDef):
+        rep.ob('R18.clamp', 'ScientificFloat', None, 'class not found'); return
+    mp, me = prog.find_member(m, cls, 'exp_prefix'), prog.find_member(m, cls, 'exp_extension')
+    if not mp or not me:
+        rep.ob('R18.clamp', 'ScientificFloat', None, 'exp_prefix / exp_extension not found', prog.site(m, cls)); return
+    tables = []
+    for key, ok, detail, site in si_tables(prog):
+        if key.startswith(('default:ScientificFloat', 'helper:')) and detail.startswith('{'):
+            try: tb = ast.literal_eval(detail.split(' -- ')[0])
+            except Exception: continue
+            if isinstance(tb, dict) and tb and tb not in tables: tables.append(tb)
+    if not tables:
+        rep.ob('R18.clamp', 'tables', None, 'no prefix table in use was evaluated', prog.site(m, cls)); return
+    def ext_value(t):
+        if t == '': return 0
+        if isinstance(t, Opq) and t.k and t.k[0] == 'strcat' and len(t.k) == 3 and t.k[1] == 'e' and isinstance(t.k[2], Opq) and t.k[2].k[0] == 'fmt' and isinstance(t.k[2].k[1], Poly):
+            c = t.k[2].k[1].real_const()
+            if c is not None and c.denominator == 1 and not t.k[2].k[2]: return int(c)
+        if isinstance(t, str) and t.startswith('e'):
+            try: return int(t[1:])
+            except ValueError: return None
+        return None
+    for tb in tables:
+        keys3 = sorted(k for k in tb if k % 3 == 0)
+        lo, hi = min(keys3), max(keys3)
+        for use in (True, False):
+            bad = []; undecided = []
+            for e in range(lo - 12, hi + 13, 3):
+                ev = Evaluator(prog)
+                selfv = Rec('ScientificFloat', {'value': A('v'), 'unit': '', 'precision': A('p'), 'use_exp_prefix': use, 'exp_prefixes': {_HK(Poly.const(k)): v for k, v in tb.items()}}, (m, cls))
+                pf = ev.call_fn(mp[1], mp[0], [selfv, Poly.const(e)], {}, {'__parent__': None}, 1)
+                ex = ev.call_fn(me[1], me[0], [selfv, Poly.const(e)], {}, {'__parent__': None}, 1)
+                n = ext_value(ex)
+                if not isinstance(pf, str) or n is None: undecided.append(e); continue
+                if pf == '': k = 0
+                else:
+                    ks = [k_ for k_, v_ in tb.items() if v_ == pf]
+                    if len(ks) != 1: bad.append((e, pf, n)); continue
+                    k = ks[0]
+                if k + n != e: bad.append((e, pf, n))
+            name = f"{'prefix' if use else 'plain'}:{{{', '.join(f'{k}:{v}' for k, v in sorted(tb.items()))}}}"
+            ok = False if bad else (None if undecided else True)
+            rep.ob('R18.clamp', name, ok, (f'letter + extension = exponent for every multiple of three in [{lo - 12}, {hi + 12}]' if ok else
+                   f"exponent {bad[0][0]} is printed as '{('e' + str(bad[0][2])) if bad[0][2] else ''}{bad[0][1]}', i.e. 10^{(next((k_ for k_, v_ in tb.items() if v_ == bad[0][1]), 0)) + bad[0][2]}: the value shown is off by a power of ten" if bad else
+                   f'not folded for exponents {undecided[:4]}'), prog.site(me[0], me[1]))
+
+
 def run(rep, prog, tier):
     from .hidden import no_hidden_state
     rep.rule('R18.state', 'no hidden state in the anchored modules: no function writes a module-level object, no caching decorator / cached property')
@@ -178,6 +234,7 @@ def run(rep, prog, tier):
         rep.ob('R18.tables', key, ok, detail, site)
     for key, ok, detail, site in polar_rule(prog):
         rep.ob('R18.glyph', key, ok, detail, site)
+    clamp_rule(rep, prog)
     m = prog.mod(UT)
     # ---- exponent3 / mantissa3
     cls = m.defs.get('Float3')
